@@ -107,17 +107,21 @@ struct Flags {
     all: bool,
     wakati: bool,
     split: bool,
+    /// 0: input file argument -> stdout, 1: stdin -> stdout, 2: input file argument -> `-o` file
+    route: u8,
 }
 
 fn flag_sets() -> Vec<Flags> {
     vec![
-        Flags { name: "default", args: vec![], mode: Mode::C, all: false, wakati: false, split: true },
-        Flags { name: "-a", args: vec!["-a"], mode: Mode::C, all: true, wakati: false, split: true },
-        Flags { name: "-w", args: vec!["-w"], mode: Mode::C, all: false, wakati: true, split: true },
-        Flags { name: "-m A", args: vec!["-m", "A"], mode: Mode::A, all: false, wakati: false, split: true },
-        Flags { name: "-m B -a", args: vec!["-m", "B", "-a"], mode: Mode::B, all: true, wakati: false, split: true },
-        Flags { name: "--split-sentences=no", args: vec!["--split-sentences=no"], mode: Mode::C, all: false, wakati: false, split: false },
-        Flags { name: "-w --split-sentences=no -m A", args: vec!["-w", "--split-sentences=no", "-m", "A"], mode: Mode::A, all: false, wakati: true, split: false },
+        Flags { name: "default", args: vec![], mode: Mode::C, all: false, wakati: false, split: true, route: 0 },
+        Flags { name: "-a", args: vec!["-a"], mode: Mode::C, all: true, wakati: false, split: true, route: 0 },
+        Flags { name: "-w", args: vec!["-w"], mode: Mode::C, all: false, wakati: true, split: true, route: 0 },
+        Flags { name: "-m A", args: vec!["-m", "A"], mode: Mode::A, all: false, wakati: false, split: true, route: 0 },
+        Flags { name: "-m B -a", args: vec!["-m", "B", "-a"], mode: Mode::B, all: true, wakati: false, split: true, route: 0 },
+        Flags { name: "--split-sentences=no", args: vec!["--split-sentences=no"], mode: Mode::C, all: false, wakati: false, split: false, route: 0 },
+        Flags { name: "-w --split-sentences=no -m A", args: vec!["-w", "--split-sentences=no", "-m", "A"], mode: Mode::A, all: false, wakati: true, split: false, route: 0 },
+        Flags { name: "default, text on stdin", args: vec![], mode: Mode::C, all: false, wakati: false, split: true, route: 1 },
+        Flags { name: "-a -o <file>", args: vec!["-a"], mode: Mode::C, all: true, wakati: false, split: true, route: 2 },
     ]
 }
 
@@ -212,6 +216,9 @@ fn tok_json(t: &Tok) -> Value {
         "begin": t.begin_c, "end": t.end_c, "raw_surface": t.surface, "is_oov": t.is_oov, "word_id": t.word_id,
         "dictionary_id": t.dic_id, "pos": t.pos, "normalized_form": t.normalized, "dictionary_form": t.dictionary,
         "reading_form": t.reading, "synonym_group_ids": t.synonyms,
+        "pos_id": t.pos_id, "total_cost": t.total_cost,
+        "wi": {"surface": t.wi_surface, "head_word_length": t.head_word_length, "a_unit_split": t.a_split, "b_unit_split": t.b_split,
+               "word_structure": t.word_structure, "dictionary_form_word_id": t.dic_form_wid},
     })
 }
 
@@ -261,7 +268,7 @@ pub fn setup() -> i32 {
 
 pub fn main(tier: Tier, replay: Option<String>) -> i32 {
     let mut rep = Report::new("C19", "model_checking", tier);
-    rep.rule = "CLI: every file of at most max_lines lines over the bodies {empty, 東京都, 1,000円, あ。い, blank, 京都・・・東京, あ<br><br>い} x terminators {LF, CRLF, none on the last line} x 7 flag sets (default, -a, -w, -m A, -m B -a, --split-sentences=no, -w with no splitting in mode A) is fed to the real `sudachi` binary; stdout must equal the bytes the library + documented format give for each line without its terminator. Python: every call sequence up to `depth` over tokenize(t) / tokenize(t, mode) / tokenize(t, out=L) / m.split(mode[, out=L2]) / lookup(q[, out=L]) / holding a morpheme across list reuse, for five tokenizer configurations (modes, field subset, projections normalized / reading), on the real extension in a sub-process; every result must equal the library's (JSON oracle), text[begin:end] must be the raw surface, a per-call mode must not stick, and the interpreter must exit normally. non-trivial = the file has more than one line / the sequence has more than one call".into();
+    rep.rule = "CLI: every file of at most max_lines lines over the bodies {empty, 東京都, 1,000円, あ。い, blank, 京都・・・東京, あ<br><br>い} x terminators {LF, CRLF, none on the last line} x 9 flag sets (default, -a, -w, -m A, -m B -a, --split-sentences=no, -w with no splitting in mode A, default with the text on stdin, -a with -o <file>) is fed to the real `sudachi` binary; stdout must equal the bytes the library + documented format give for each line without its terminator. Python: every call sequence up to `depth` over tokenize(t) / tokenize(t, mode) / tokenize(t, out=L) / m.split(mode[, out=L2]) / lookup(q[, out=L]) / holding a morpheme across list reuse, for five tokenizer configurations (modes, field subset, projections normalized / reading), on the real extension in a sub-process; every result must equal the library's (JSON oracle), text[begin:end] must be the raw surface, a per-call mode must not stick, and the interpreter must exit normally. non-trivial = the file has more than one line / the sequence has more than one call".into();
     rep.assumptions = vec![
         "the subjects run out of process; enumeration is exhaustive within the bound, the verdict is differential against the in-process library on the same dictionary bytes and configuration".into(),
         "Dictionary.pre_tokenizer needs the `tokenizers` package, which is not installed in this sandbox: that path is not exercised".into(),
@@ -330,7 +337,18 @@ pub fn main(tier: Tier, replay: Option<String>) -> i32 {
                             return;
                         }
                     };
-                    let out = Command::new(cli).arg("-r").arg(cfg_path).arg("-p").arg(res_dir).args(&f.args).arg(&input_path).output();
+                    let out_path = work_dir().join(format!("cli_output_{}.txt", k));
+                    let _ = std::fs::remove_file(&out_path);
+                    let mut cmd = Command::new(cli);
+                    cmd.arg("-r").arg(cfg_path).arg("-p").arg(res_dir).args(&f.args);
+                    let out = match f.route {
+                        1 => {
+                            use std::process::Stdio;
+                            cmd.stdin(Stdio::from(std::fs::File::open(&input_path).expect("open input"))).output()
+                        }
+                        2 => cmd.arg("-o").arg(&out_path).arg(&input_path).output(),
+                        _ => cmd.arg(&input_path).output(),
+                    };
                     let state = json!({"file": content, "flags": f.name});
                     match out {
                         Err(e) => {
@@ -338,7 +356,7 @@ pub fn main(tier: Tier, replay: Option<String>) -> i32 {
                             return;
                         }
                         Ok(o) => {
-                            let got = String::from_utf8_lossy(&o.stdout).to_string();
+                            let got = if f.route == 2 { String::from_utf8_lossy(&std::fs::read(&out_path).unwrap_or_default()).to_string() } else { String::from_utf8_lossy(&o.stdout).to_string() };
                             let fail = if !o.status.success() {
                                 let err = String::from_utf8_lossy(&o.stderr);
                                 Some(Failure::new("cli-crashed", format!("sudachi {} on file {:?} exited with {:?}: {}", f.name, content, o.status.code(), err.lines().last().unwrap_or(""))))
